@@ -75,19 +75,19 @@ class Index:
         sub_bboxes = [
             [
                 (i, (x_1, y_1, x_2, y_2)) for (i, (x_1, y_1, x_2, y_2)) in bboxes
-                if x_1 < center_x and y_1 < center_y
+                if x_1 <= center_x and y_1 <= center_y
             ],
             [
                 (i, (x_1, y_1, x_2, y_2)) for (i, (x_1, y_1, x_2, y_2)) in bboxes
-                if x_2 > center_x and y_1 < center_y
+                if x_2 >= center_x and y_1 <= center_y
             ],
             [
                 (i, (x_1, y_1, x_2, y_2)) for (i, (x_1, y_1, x_2, y_2)) in bboxes
-                if x_1 < center_x and y_2 > center_y
+                if x_1 <= center_x and y_2 >= center_y
             ],
             [
                 (i, (x_1, y_1, x_2, y_2)) for (i, (x_1, y_1, x_2, y_2)) in bboxes
-                if x_2 > center_x and y_2 > center_y
+                if x_2 >= center_x and y_2 >= center_y
             ],
         ]
 
